@@ -40,3 +40,8 @@ static ptr_t VERIF_operator_new(u64 n) { __CPROVER_assert(0, "no-dynamic-allocat
 static void VERIF_operator_delete(ptr_t p) { }
 static void VERIF_abort(void) { __CPROVER_assert(0, "abort/exit reached (FASTOR assertion failed)"); __CPROVER_assume(0); }
 static void VERIF_exit(u32 c) { __CPROVER_assert(0, "abort/exit reached (FASTOR assertion failed)"); __CPROVER_assume(0); }
+/* catch blocks are only entered from landing pads, which are cut (assume(false)); these stubs are unreachable */
+static ptr_t VERIF_cxa_begin_catch(ptr_t e) { __CPROVER_assume(0); return e; }
+static void VERIF_cxa_end_catch(void) { }
+static void VERIF_cxa_rethrow(void) { VERIF_threw = 1; __CPROVER_assume(0); }
+static void VERIF_abort_p(ptr_t p) { VERIF_abort(); }
